@@ -102,6 +102,13 @@ class NewtonRaphsonGeometry(StandardGeometry, ABC):
         Returns:
             tuple: The intersection points (x, y, z).
         """
+        if np.isinf(self.radius):
+            # base surface is a plane: start from the vertex plane
+            t = -rays.z / rays.N
+            t[t < 0] = np.nan  # plane behind the ray: no intersection
+            return (rays.x + rays.L * t, rays.y + rays.M * t,
+                    rays.z + rays.N * t)
+
         a = rays.L**2 + rays.M**2 + rays.N**2
         b = (2 * rays.L * rays.x + 2 * rays.M * rays.y -
              2 * rays.N * self.radius + 2 * rays.N * rays.z)
